@@ -70,7 +70,8 @@ def carries (reply : Reply) (s : Sample) : Prop :=
 /-- For EVERY sequence of ammo and EVERY behaviour of the target outside the documented fatal configuration:
 the instance takes all ammo and finishes normally, the samples are exactly those of the individual shots;
 a plain http shot yields exactly one sample carrying the received status or the failure code;
-a scenario shot yields one sample per executed step (at least one when it has steps);
+a scenario shot (http/scenario, and http2/scenario outside the fatal condition) yields one sample per executed step
+(at least one when it has steps);
 a gRPC shot yields one sample, a gRPC scenario one per executed call. -/
 theorem C19_sample_and_continue :
     (∀ shots : List GunShot, (∀ g ∈ shots, g.documentedFatal = false) →
@@ -80,10 +81,11 @@ theorem C19_sample_and_continue :
     (∀ (h2 : Bool) (facts : H2Facts) (cfg : AutoTagCfg) (tag : String) (id : Nat) (path : String) (reply : Reply),
         (h2 && h2Panics facts reply) = false →
         ∃ s, (GunShot.http h2 facts cfg tag id path reply).run.reports = [s] ∧ carries reply s) ∧
-    (∀ (scn : String) (steps : List (StepCfg × Reply)),
-        (GunShot.scenario scn steps).run.reports.length
+    (∀ (h2 : Bool) (facts : H2Facts) (scn : String) (steps : List (StepCfg × Reply)),
+        (GunShot.scenario h2 facts scn steps).documentedFatal = false →
+        (GunShot.scenario h2 facts scn steps).run.reports.length
           = executedSteps (steps.map fun (c, r) => { name := c.name, outcome := stepOutcome c r }) ∧
-        (steps ≠ [] → 1 ≤ (GunShot.scenario scn steps).run.reports.length)) ∧
+        (steps ≠ [] → 1 ≤ (GunShot.scenario h2 facts scn steps).run.reports.length)) ∧
     (∀ (tag : String) (o : GrpcOutcome), (GunShot.grpc tag o).run.reports.length = 1) ∧
     (∀ (scn : String) (calls : List (GrpcCallCfg × GrpcReply)),
         (GunShot.grpcScenario scn calls).run.reports.length
@@ -108,10 +110,11 @@ theorem C19_sample_and_continue :
     | full r =>
       exact ⟨{ tags := httpTag cfg tag path, id := id, proto := r.status, net := 0 },
         by simp [Reply.httpOutcome, shootHttp], by simp [carries]⟩
-  · intro scn steps
-    have hlen : (GunShot.scenario scn steps).run.reports.length
+  · intro h2 facts scn steps hnf
+    have hlen : (GunShot.scenario h2 facts scn steps).run.reports.length
         = executedSteps (steps.map fun (c, r) => { name := c.name, outcome := stepOutcome c r }) := by
       simp only [GunShot.run]
+      rw [scenario_map_eq_of_not_fatal h2 facts steps hnf scn]
       apply Proofs.C10.shootScenario_length
       intro s hs st
       simp only [List.mem_map] at hs
@@ -143,21 +146,25 @@ theorem C19_http_failure_is_visible (h2 : Bool) (facts : H2Facts) (cfg : AutoTag
   · simp [GunShot.run, hf', Reply.httpOutcome, shootHttp]
   · exact Proofs.C10.getErrno_ne_zero e he
 
-/-- The http scenario gun, for EVERY step list and EVERY behaviour of the target: the samples are those of the steps
+/-- The http scenario guns (http/scenario; http2/scenario outside the documented fatal condition), for EVERY step
+list and EVERY behaviour of the target: the samples are those of the steps
 the loop enters, in order (step `i` ↦ sample `i`); the loop enters the next step exactly when the previous one
 completed; the sample of a completed step carries the scenario.step tag, the RECEIVED STATUS and net code 0; the
 sample of a step that failed for whatever reason (no response, broken body, unparsable JSON, a scalar xpath, an
 assertion, a header the modifiers reject) carries the tag `…|__EMPTY__`, proto 0 and the failure net code 999, and
 it is the last sample of that shot. -/
-theorem C19_scenario_samples (scn : String) (steps : List (StepCfg × Reply)) :
+theorem C19_scenario_samples (h2 : Bool) (facts : H2Facts) (scn : String) (steps : List (StepCfg × Reply))
+    (hnf : (GunShot.scenario h2 facts scn steps).documentedFatal = false) :
     let ms : List Step := steps.map fun (c, r) => { name := c.name, outcome := stepOutcome c r }
-    (GunShot.scenario scn steps).run.reports = ((steps.take (executedSteps ms)).map fun (c, r) => sampleOfStep scn c r) ∧
+    (GunShot.scenario h2 facts scn steps).run.reports = ((steps.take (executedSteps ms)).map fun (c, r) => sampleOfStep scn c r) ∧
     (∀ (c : StepCfg) (resp : Resp), stepCompleted c (.full resp) = true →
         sampleOfStep scn c (.full resp) = { tags := stepTag scn c.name, id := 0, proto := resp.status, net := 0 }) ∧
     (∀ (c : StepCfg) (r : Reply), stepCompleted c r = false →
         sampleOfStep scn c r = { tags := stepTag scn c.name ++ "|" ++ emptyTag, id := 0, proto := 0, net := protoCodeError }) ∧
     (∀ i, i + 1 < executedSteps ms → ∃ p, steps[i]? = some p ∧ stepCompleted p.1 p.2 = true) := by
-  refine ⟨shootScenario_reports scn steps, sampleOfStep_completed scn, sampleOfStep_failed scn, ?_⟩
+  refine ⟨by simp only [GunShot.run]; rw [scenario_map_eq_of_not_fatal h2 facts steps hnf scn]; exact shootScenario_reports scn steps,
+    sampleOfStep_completed scn, sampleOfStep_failed scn, ?_⟩
+  clear hnf
   induction steps with
   | nil => intro i hi; simp [executedSteps] at hi
   | cons p rest ih =>
@@ -258,17 +265,24 @@ theorem C19_pool (insts : List (List GunShot)) :
 `Bridge.C19.panicOnHTTP1Do_eq`, `checkHTTP2Conds_eq`, `nextProtoTLS_eq`): the gun is the http2 gun AND the peer did
 not negotiate HTTP/2 — it answered the ALPN offer with the alert "no application protocol", or a response arrived
 over a connection that is not TLS, negotiated another protocol than `h2`, or not mutually.  Refusal, reset, silence,
-garbage, any status and any body are NOT fatal for the http2 gun; nothing is fatal for the other five gun kinds. -/
+garbage, any status and any body are NOT fatal for the http2 gun.  For the http2/scenario gun: some step that is
+actually sent (all earlier steps completed) meets such a peer.  Nothing is fatal for the other five gun kinds
+(http, connect, http/scenario, grpc, grpc/scenario). -/
 theorem C19_documented_fatal_iff :
     (∀ (h2 : Bool) (facts : H2Facts) (cfg : AutoTagCfg) (tag : String) (id : Nat) (path : String) (reply : Reply),
       (GunShot.http h2 facts cfg tag id path reply).documentedFatal = true ↔
         h2 = true ∧ (match reply with
           | .noResponse _ => facts.alpnAlert = true
           | _ => facts.tls = none ∨ (∃ p m, facts.tls = some (p, m) ∧ (p ≠ Gen.RespGuard.nextProtoTLS ∨ m = false)))) ∧
-    (∀ scn steps, (GunShot.scenario scn steps).documentedFatal = false) ∧
+    (∀ facts scn steps, (GunShot.scenario false facts scn steps).documentedFatal = false) ∧
+    (∀ (facts : H2Facts) (scn : String) (steps : List (StepCfg × Reply)),
+      (GunShot.scenario true facts scn steps).documentedFatal = true ↔
+        ∃ (i : Nat) (p : StepCfg × Reply), steps[i]? = some p ∧ p.1.prepFails = false ∧ h2Panics facts p.2 = true ∧
+          ∀ j, j < i → ∃ q, steps[j]? = some q ∧ stepCompleted q.1 q.2 = true ∧ h2Panics facts q.2 = false) ∧
     (∀ tag o, (GunShot.grpc tag o).documentedFatal = false) ∧
     (∀ scn calls, (GunShot.grpcScenario scn calls).documentedFatal = false) := by
-  refine ⟨?_, fun _ _ => rfl, fun _ _ => rfl, fun _ _ => rfl⟩
+  refine ⟨?_, fun facts scn steps => scenarioFatal_false facts steps, fun facts scn steps => scenarioFatal_true_iff facts steps,
+    fun _ _ => rfl, fun _ _ => rfl⟩
   intro h2 facts cfg tag id path reply
   have hchk : checkHTTP2 facts.tls = false ↔
       facts.tls = none ∨ (∃ p m, facts.tls = some (p, m) ∧ (p ≠ Gen.RespGuard.nextProtoTLS ∨ m = false)) := by
@@ -337,7 +351,7 @@ example : substr (-100) 100 "abc".toList = .ok ['a', 'b', 'c'] := by decide
 example : substr 0 (-100) "abc".toList = .ok [] := by decide
 example : applyChain [.lower, .replace ['='] [], .substr 6 0] "Basic Ym9=".toList = .ok "ym9".toList := by decide
 -- a scenario against a target whose second answer carries a short header: the step completes, the run goes on
-example : (GunShot.scenario "s"
+example : (GunShot.scenario false {} "s"
     [(⟨"a", false, []⟩, .full ⟨200, fun _ => [], 0, fun _ => false, false, fun _ => false⟩),
      (⟨"b", false, [.varHeader [⟨"X-Val", some [.substr 5 0]⟩]]⟩, .full ⟨404, fun _ => ['a','b','c'], 0, fun _ => false, false, fun _ => false⟩)]).run
     = { reports := [⟨"s.a", 0, 200, 0⟩, ⟨"s.b", 0, 404, 0⟩], panicked := false } := by decide
@@ -351,7 +365,7 @@ example : (GunShot.http true {} ⟨false, 2, true⟩ "t" 1 "/" (.noResponse (.op
 -- C19_http_failure_is_visible: a refused connection seen by the http2 gun
 example : Proofs.C10.ErrnoNonzero (.opError (.syscallError (.errno 111))) := by simp [Proofs.C10.ErrnoNonzero]
 -- C19_scenario_samples: a three-step scenario whose second response fails its assertion: two samples, the third step is not entered
-example : (GunShot.scenario "s"
+example : (GunShot.scenario true {} "s"
     [(⟨"a", false, [.varJsonpath ["x"]]⟩, .full ⟨201, fun _ => [], 2, fun _ => false, true, fun _ => true⟩),
      (⟨"b", false, [.assertResponse { statusCode := 200 }]⟩, .full ⟨503, fun _ => [], 0, fun _ => false, false, fun _ => false⟩),
      (⟨"c", false, []⟩, .full ⟨200, fun _ => [], 0, fun _ => false, false, fun _ => false⟩)]).run.reports
@@ -375,6 +389,10 @@ example : (GunShot.http true ⟨false, some ("http/1.1", true)⟩ ⟨false, 2, t
 example : (GunShot.http true ⟨false, some ("h2", false)⟩ ⟨false, 2, true⟩ "t" 1 "/" (.brokenBody 200 .other)).documentedFatal = true := by decide
 example : (GunShot.http true ⟨false, some ("h2", true)⟩ ⟨false, 2, true⟩ "t" 1 "/" (.brokenBody 500 .other)).documentedFatal = false := by decide
 example : (GunShot.http false ⟨true, none⟩ ⟨false, 2, true⟩ "t" 1 "/" (.noResponse .other)).documentedFatal = false := by decide
+-- the http2/scenario gun against a TLS peer without h2: the first request that is sent is fatal, nothing is reported
+example : (GunShot.scenario true ⟨true, none⟩ "s" [(⟨"a", false, []⟩, .noResponse .other), (⟨"b", false, []⟩, .noResponse .other)]).run
+    = { reports := [], panicked := true } := by decide
+example : (GunShot.scenario true ⟨true, none⟩ "s" [(⟨"a", true, []⟩, .noResponse .other), (⟨"b", false, []⟩, .noResponse .other)]).documentedFatal = false := by decide
 -- the regenerated index arithmetic on the defect's witness: `in[3:3]`, not `in[3:5]`
 example : Gen.RespGuard.substrIdx 5 0 3 = (3, 3) := by decide
 example : Gen.RespGuard.sizeRejects ">" 10 3 = some true := by decide
